@@ -174,6 +174,13 @@ func init() {
 	externals["github.com/klauspost/compress/s2.Decode"] = func(fr *frame, a []value) value {
 		src := a[1].([]value)
 		if anySym(src) {
+			// symbolic compressed data: either it carries the identity tag written by the
+			// model of EncodeBetter (then the payload comes back), or it is hostile input,
+			// for which the real decoder returns an error or some bytes - modelled as an
+			// error (arbitrary decoded bytes are what the tagged case already gives)
+			if len(src) == 0 || !fr.i.decide(eqByte(src[0], byte(0xEE))) {
+				return tuple{[]value(nil), mkError(fr, "s2: corrupt input")}
+			}
 			c := make([]value, len(src)-1)
 			copy(c, src[1:])
 			return tuple{c, iface{}}
